@@ -5,18 +5,27 @@ pub mod scn;
 
 use simcore::{CheckSpec, Part};
 
-pub const PROPERTIES: &[&str] = &["C37"];
+pub const PROPERTIES: &[&str] = &["C37", "C19"];
 
 pub fn registry(property: &str) -> Option<CheckSpec> {
     match property {
         "C37" => Some(CheckSpec {
             property: "C37",
             level: "exploration",
-            parts: vec![Part::new(scn::Buyback, 40_000, 600_000)],
+            parts: vec![Part::new(scn::Buyback, 20_000, 400_000)],
             assumptions: vec![
                 "the bank balances a claim is measured against are the balances the GT bank records (reserved at confirmation); tokens in the bank vault above the record belong to the treasury (sync_gt_bank_v2)".into(),
                 "fees reach the receiver vault by a direct mint instead of claim_fees; GT is handed out by mint_gt_reward".into(),
                 "GT exchange window is the default 24 h (gt_set_exchange_time_window is test-only and not compiled in)".into(),
+            ],
+        }),
+        "C19" => Some(CheckSpec {
+            property: "C19",
+            level: "fault_enumeration",
+            parts: vec![Part::new(scn::Buyback, 4_000, 80_000)],
+            assumptions: vec![
+                "treasury program only; every landed privileged treasury transaction of the buyback scenario is re-signed on a fork of its pre-state by an address without roles, by an address holding every other store/treasury role, and (complete_gt_exchange) by another user".into(),
+                "create_swap_v2 and cancel_swap are not exercised (no swap order flow in this scenario); claim_fees runs against a market without accrued fees".into(),
             ],
         }),
         _ => None,
